@@ -461,6 +461,11 @@ def remap_pin_grid_rule(ctx, rep, rule="layout"):
             env2[ielem] = "j"
             ok = (N(gs, env2) == ("upd", S("Gi"), comm(("add", rem, S("j"))), ("idx", S("Gi"), comm(("add", ("add", rem, S("j")), I(1)))))
                   and N(ginit, env2) == S("G") and tuple(N(x, env2) for x in isrc[4]) == (I(0), ("sub", ("sub", S("i"), rem), I(1))))
+            if not ok:
+                # the same moves with the index running over the places themselves:
+                # for j in r..i-1 { G[j] = G[j + 1] }
+                ok = (N(gs, env2) == ("upd", S("Gi"), S("j"), ("idx", S("Gi"), comm(("add", S("j"), I(1)))))
+                      and N(ginit, env2) == S("G") and tuple(N(x, env2) for x in isrc[4]) == (rem, ("sub", S("i"), I(1))))
             if ok:
                 shift = ("shift", rem, S("i"))
     elif gstep[0] == "after" and util.is_call(gstep[1]) and gstep[1][1].endswith("::copy_within") and gstep[2] == 0 and gstep[3] == grid[1]:
@@ -598,6 +603,18 @@ def generate_coordinates_shared(ctx, rep, rule, fn, se, cp, init_l, size):
     rep.check(root_ok, rule, fn, "result", "the coordinate list the loop filled is returned", "the returned list is not the one the draw loop filled", body.loc())
 
 
+EMPTY_VEC = ("std::vec::Vec::<T>::with_capacity", "std::vec::Vec::<T>::new", "alloc::vec::Vec::<T>::with_capacity", "alloc::vec::Vec::<T>::new")
+
+
+def pushed_per_round(step, ph):
+    """step = the loop-carried value of a Vec at the back edge, ph = its value at the head:
+    the pushed value when step is exactly `ph` after one `push` (nothing else done to it)"""
+    st = strip(step)
+    if st[0] == "after" and util.is_call(st[1], "std::vec::Vec::<T, A>::push") and st[2] == 0 and st[3] == ph and len(st[1][2]) == 2:
+        return st[1][2][1]
+    return None
+
+
 def generate_coordinates_rule(ctx, rep, rule="distinct"):
     fn = "matrix_card::generate_coordinates"
     se = ctx.wrap.run(fn)
@@ -708,6 +725,12 @@ def generate_coordinates_rule(ctx, rep, rule="distinct"):
             table = (key, ph, init, step)
         elif util.is_call(si, "std::vec::from_elem"):
             coords = (key, ph, init, step)
+        elif slots is None and util.is_call(si) and si[1] in EMPTY_VEC and pushed_per_round(step, ph) is not None:
+            # an empty list that every round appends to, once and unconditionally (the value at the
+            # back edge is `push` applied to the value at the head - a conditional push would be a
+            # merge): before round r it holds r entries, so the push is the write of entry r, and
+            # after the challenge_count rounds of `0..challenge_count` it holds challenge_count
+            coords = (key, ph, ("call", "std::vec::from_elem", (("int", 0, "u8"), ("param", 3)), None), ("upd", ph, ("i", rounds[1]), pushed_per_round(step, ph)))
     if slots is not None:
         # the one store through the slot reference is the write of coordinates[r]
         sk = [k for k in rst if k[0] == "deref" and strip(k[1]) == ("field", slots["elem"], 1)]
